@@ -1,8 +1,267 @@
 (* C05 — grad, div, curl and Laplacian are the textbook combinations of the derivatives.
-   Statements only. *)
-From DF Require Import Prelude FieldK NDArray Diff Calculus C05_refuse.
+   Statements only.  K is an arbitrary field (FLaws K): every statement holds in particular for all
+   real field values and is executed at Qc by the correspondence (Check_C05).
+   Model: coq/model/Calculus.v (run_op, grad_v, div_v, curl_v, lap_v over Diff.diff_nd = C04's operator). *)
+From Coq Require Import Qcanon.
+From DF Require Import Prelude FieldK NDArray Diff Calculus C04_proofs
+     C05_stencil C05_identities C05_exact C05_refuse.
 
-Theorem C05_grad_refuses_non_scalar : forall (K : FOps) M dims nv vdims vmap (f : idx -> K) valid,
+(* ===== textbook combinations; components paired with axes through the mapping ===== *)
+
+(* every derivative used by the four operators is C04's line operator on the grid line through the cell,
+   with that line's validity, cell size and periodicity *)
+Theorem C05_derivative_is_C04_line_operator : forall (K : FOps) (M : cmesh K) valid order a g (p : idx),
+  dax K M order a g valid p
+  = nth (nth a p 0%nat)
+        (diff_line K order (nth a (cm_cell M) (f0 K)) (nth a (cm_per M) false) true
+                   (line (cm_sh M ++ [1%nat]) g a p) (line (cm_sh M) valid a (removelast p)))
+        (f0 K).
+Proof. exact dax_is_line_derivative. Qed.
+Print Assumptions C05_derivative_is_C04_line_operator.
+
+Theorem C05_textbook_grad : forall (K : FOps) (M : cmesh K) dims vmap (f : idx -> K) valid vdims,
+  run_op K OGrad M dims 1 vdims vmap f valid = OK (cm_nd M, grad_v K M f valid) /\
+  forall (p : idx), grad_v K M f valid p = dax K M 1 (last p 0%nat) (comp K 0 f) valid (cell0 p).
+Proof. exact grad_textbook. Qed.
+Print Assumptions C05_textbook_grad.
+
+(* component c is differentiated along the axis its LABEL is mapped to (axes c), not along axis c *)
+Theorem C05_textbook_div : forall (K : FOps) (M : cmesh K) dims vmap (f : idx -> K) valid vs axes,
+  fwd_axes (Some vs) vmap dims = OK axes ->
+  run_op K ODiv M dims (cm_nd M) (Some vs) vmap f valid = OK (1%nat, div_v K M axes f valid) /\
+  forall (p : idx), div_v K M axes f valid p
+    = fsum K (map (fun c => dax K M 1 (nth c axes 0%nat) (comp K c f) valid (cell0 p))
+                  (iota 0 (length axes))).
+Proof. exact div_textbook. Qed.
+Print Assumptions C05_textbook_div.
+
+Example C05_textbook_div_nonvacuous :
+  fwd_axes (Some ["p"; "q"; "s"]%string) [("s", "a"); ("p", "b"); ("q", "c")]%string ["a"; "b"; "c"]%string
+  = OK [1; 2; 0]%nat.
+Proof. reflexivity. Qed.
+
+(* result component k is along axis k; the component that points along axis a is r a (reversed mapping) *)
+Theorem C05_textbook_curl : forall (K : FOps) (M : cmesh K) dims vmap (f : idx -> K) valid vs axes r,
+  cm_nd M = 3%nat -> fwd_axes (Some vs) vmap dims = OK axes -> rev_comps (Some vs) vmap dims = OK r ->
+  run_op K OCurl M dims 3 (Some vs) vmap f valid = OK (3%nat, curl_v K M r f valid) /\
+  forall (p : idx), curl_v K M r f valid p
+    = fsub (dax K M 1 ((last p 0 + 1) mod 3)%nat (comp K (nth ((last p 0 + 2) mod 3) r 0)%nat f) valid (cell0 p))
+           (dax K M 1 ((last p 0 + 2) mod 3)%nat (comp K (nth ((last p 0 + 1) mod 3) r 0)%nat f) valid (cell0 p)).
+Proof. exact curl_textbook. Qed.
+Print Assumptions C05_textbook_curl.
+
+Example C05_textbook_curl_nonvacuous :
+  rev_comps (Some ["p"; "q"; "s"]%string) [("s", "a"); ("p", "b"); ("q", "c")]%string ["a"; "b"; "c"]%string
+  = OK [2; 0; 1]%nat.
+Proof. reflexivity. Qed.
+
+Theorem C05_textbook_laplace : forall (K : FOps) (M : cmesh K) dims vmap (f : idx -> K) valid nv vs,
+  run_op K OLap M dims nv (Some vs) vmap f valid = OK (nv, lap_v K M f valid) /\
+  forall (p : idx), lap_v K M f valid p
+    = fsum K (map (fun a => dax K M 2 a (comp K (last p 0%nat) f) valid (cell0 p)) (iota 0 (cm_nd M))).
+Proof. exact laplace_textbook. Qed.
+Print Assumptions C05_textbook_laplace.
+
+(* what the dictionaries deliver: label c -> its entry d in the mapping -> position of d in dims *)
+Theorem C05_mapping_pairs_components_with_named_axes : forall vs m dims axes,
+  fwd_axes (Some vs) m dims = OK axes ->
+  length axes = length vs /\
+  forall c, (c < length vs)%nat ->
+    exists d, dlookup (nth c vs ""%string) m = Some d /\ index_of d dims = Some (nth c axes 0%nat).
+Proof. exact fwd_axes_spec. Qed.
+Print Assumptions C05_mapping_pairs_components_with_named_axes.
+
+Theorem C05_reversed_mapping_names_component_of_axis : forall vs m dims r,
+  rev_comps (Some vs) m dims = OK r ->
+  length r = length dims /\
+  forall a, (a < length dims)%nat ->
+    exists v, rlookup (nth a dims ""%string) m = Some v /\ index_of v vs = Some (nth a r 0%nat).
+Proof. exact rev_comps_spec. Qed.
+Print Assumptions C05_reversed_mapping_names_component_of_axis.
+
+(* label spelling is irrelevant: renaming the component labels and the dimension names injectively
+   changes nothing in any of the four operators (acceptance and values) *)
+Theorem C05_label_spelling_irrelevant : forall (rho delta : string -> string),
+  (forall s t, rho s = rho t -> s = t) -> (forall s t, delta s = delta t -> s = t) ->
+  forall (K : FOps) op (M : cmesh K) dims nv vdims m (f : idx -> K) valid,
+  run_op K op M (map delta dims) nv (option_map (map rho) vdims) (ren_map rho delta m) f valid
+  = run_op K op M dims nv vdims m f valid.
+Proof. exact run_op_ren. Qed.
+Print Assumptions C05_label_spelling_irrelevant.
+
+(* ===== exactness on polynomials of degree <= 2 ===== *)
+
+(* any number of dimensions: a field that is quadratic along the grid line through the cell (other
+   coordinates frozen) is differentiated exactly along that line, for every line length >= 3 *)
+Theorem C05_exact_first_derivative_on_lines : forall (K : FOps), FLaws K -> f2 K <> f0 K ->
+  forall (M : cmesh K) org a g valid (q : idx) c0 c1 c2,
+  (forall j, valid j = true) -> good_axis K M a -> in_mesh K M q ->
+  (forall j, (j < nth a (cm_sh M) 0)%nat ->
+     g (set_nth a j q ++ [0%nat]) = quad K c0 c1 c2 (xc K M org a j)) ->
+  dax K M 1 a g valid (q ++ [0%nat]) = fadd c1 (fmul (fmul (f2 K) c2) (xc K M org a (nth a q 0%nat))).
+Proof. exact dax1_exact_line. Qed.
+Print Assumptions C05_exact_first_derivative_on_lines.
+
+Theorem C05_exact_second_derivative_on_lines : forall (K : FOps), FLaws K ->
+  forall (M : cmesh K) org a g valid (q : idx) c0 c1 c2,
+  (forall j, valid j = true) -> good_axis K M a -> in_mesh K M q ->
+  (forall j, (j < nth a (cm_sh M) 0)%nat ->
+     g (set_nth a j q ++ [0%nat]) = quad K c0 c1 c2 (xc K M org a j)) ->
+  dax K M 2 a g valid (q ++ [0%nat]) = fmul (f2 K) c2.
+Proof. exact dax2_exact_line. Qed.
+Print Assumptions C05_exact_second_derivative_on_lines.
+
+Theorem C05_exact_grad_any_dimension : forall (K : FOps), FLaws K -> f2 K <> f0 K ->
+  forall (M : cmesh K) org f valid (q : idx) a c0 c1 c2,
+  (forall j, valid j = true) -> good_axis K M a -> in_mesh K M q ->
+  (forall j, (j < nth a (cm_sh M) 0)%nat ->
+     f (set_nth a j q ++ [0%nat]) = quad K c0 c1 c2 (xc K M org a j)) ->
+  grad_v K M f valid (q ++ [a]) = fadd c1 (fmul (fmul (f2 K) c2) (xc K M org a (nth a q 0%nat))).
+Proof. exact grad_exact_line. Qed.
+Print Assumptions C05_exact_grad_any_dimension.
+
+(* three dimensions, the general polynomial of total degree <= 2 (p3, 10 coefficients), >= 3 cells per
+   direction, fully valid, open: all four operators return the analytic derivatives at the cell centres *)
+Theorem C05_exact_quadratic_grad : forall (K : FOps), FLaws K -> f2 K <> f0 K ->
+  forall (M : cmesh K) org valid i j k,
+  (forall x, valid x = true) -> good_mesh3 K M ->
+  (i < nth 0 (cm_sh M) 0)%nat -> (j < nth 1 (cm_sh M) 0)%nat -> (k < nth 2 (cm_sh M) 0)%nat ->
+  forall f P a, samples3 K M org (comp K 0 f) P -> (a < 3)%nat ->
+  grad_v K M f valid ([i; j; k] ++ [a]) = p3_d K a P (xc K M org 0 i) (xc K M org 1 j) (xc K M org 2 k).
+Proof. exact grad_exact_poly3. Qed.
+Print Assumptions C05_exact_quadratic_grad.
+
+(* for ANY assignment ax0, ax1, ax2 of the three components to axes *)
+Theorem C05_exact_quadratic_div : forall (K : FOps), FLaws K -> f2 K <> f0 K ->
+  forall (M : cmesh K) org valid i j k,
+  (forall x, valid x = true) -> good_mesh3 K M ->
+  (i < nth 0 (cm_sh M) 0)%nat -> (j < nth 1 (cm_sh M) 0)%nat -> (k < nth 2 (cm_sh M) 0)%nat ->
+  forall v Ps ax0 ax1 ax2 w, vsamples3 K M org v Ps ->
+  (ax0 < 3)%nat -> (ax1 < 3)%nat -> (ax2 < 3)%nat ->
+  div_v K M [ax0; ax1; ax2] v valid ([i; j; k] ++ [w])
+  = fadd (p3_d K ax0 (Ps 0%nat) (xc K M org 0 i) (xc K M org 1 j) (xc K M org 2 k))
+      (fadd (p3_d K ax1 (Ps 1%nat) (xc K M org 0 i) (xc K M org 1 j) (xc K M org 2 k))
+         (fadd (p3_d K ax2 (Ps 2%nat) (xc K M org 0 i) (xc K M org 1 j) (xc K M org 2 k)) (f0 K))).
+Proof. exact div_exact_poly3. Qed.
+Print Assumptions C05_exact_quadratic_div.
+
+(* for ANY assignment r of components to axes (r a = component along axis a) *)
+Theorem C05_exact_quadratic_curl : forall (K : FOps), FLaws K -> f2 K <> f0 K ->
+  forall (M : cmesh K) org valid i j k,
+  (forall x, valid x = true) -> good_mesh3 K M ->
+  (i < nth 0 (cm_sh M) 0)%nat -> (j < nth 1 (cm_sh M) 0)%nat -> (k < nth 2 (cm_sh M) 0)%nat ->
+  forall v Ps (r : list nat) c, vsamples3 K M org v Ps -> (c < 3)%nat ->
+  curl_v K M r v valid ([i; j; k] ++ [c])
+  = fsub (p3_d K ((c + 1) mod 3) (Ps (nth ((c + 2) mod 3) r 0%nat))
+               (xc K M org 0 i) (xc K M org 1 j) (xc K M org 2 k))
+         (p3_d K ((c + 2) mod 3) (Ps (nth ((c + 1) mod 3) r 0%nat))
+               (xc K M org 0 i) (xc K M org 1 j) (xc K M org 2 k)).
+Proof. exact curl_exact_poly3. Qed.
+Print Assumptions C05_exact_quadratic_curl.
+
+Theorem C05_exact_quadratic_laplace : forall (K : FOps), FLaws K ->
+  forall (M : cmesh K) org valid i j k,
+  (forall x, valid x = true) -> good_mesh3 K M ->
+  (i < nth 0 (cm_sh M) 0)%nat -> (j < nth 1 (cm_sh M) 0)%nat -> (k < nth 2 (cm_sh M) 0)%nat ->
+  forall v Ps c, vsamples3 K M org v Ps ->
+  lap_v K M v valid ([i; j; k] ++ [c])
+  = fadd (p3_dd K 0 (Ps c)) (fadd (p3_dd K 1 (Ps c)) (fadd (p3_dd K 2 (Ps c)) (f0 K))).
+Proof. exact laplace_exact_poly3. Qed.
+Print Assumptions C05_exact_quadratic_laplace.
+
+Definition C05_demo_mesh : cmesh QcOps :=
+  mkCMesh QcOps [3; 4; 3]%nat [Q2Qc (1 # 2); Q2Qc 1; Q2Qc (1 # 4)] [false; false; false].
+
+Example C05_exact_quadratic_nonvacuous : good_mesh3 QcOps C05_demo_mesh /\ f2 QcOps <> f0 QcOps.
+Proof.
+  split; [split; [reflexivity|] | discriminate].
+  intros [|[|[|a]]] Ha; try lia; (split; [cbv; lia | split; [reflexivity | split; [discriminate | cbv; lia]]]).
+Qed.
+
+(* ===== the vector identities, exactly in K, on every fully valid 3-d mesh ===== *)
+
+(* derivatives along different axes commute: any orders, any numbers of cells, open or periodic *)
+Theorem C05_derivatives_along_different_axes_commute : forall (K : FOps), FLaws K ->
+  forall (M : cmesh K) o1 o2 a b g valid (i : idx),
+  (o1 = 1 \/ o1 = 2)%nat -> (o2 = 1 \/ o2 = 2)%nat -> (forall j, valid j = true) ->
+  a <> b -> (a < cm_nd M)%nat -> (b < cm_nd M)%nat ->
+  (nth a i 0 < nth a (cm_sh M) 0)%nat -> (nth b i 0 < nth b (cm_sh M) 0)%nat ->
+  dax K M o1 a (dax K M o2 b g valid) valid i = dax K M o2 b (dax K M o1 a g valid) valid i.
+Proof. exact dax_comm. Qed.
+Print Assumptions C05_derivatives_along_different_axes_commute.
+
+(* the matrix form behind it: on a fully valid line every cell's derivative is a fixed row applied to the line *)
+Theorem C05_fully_valid_line_is_stencil_row : forall (K : FOps), FLaws K ->
+  forall order h per (u : list K) i, (order = 1 \/ order = 2)%nat -> (i < length u)%nat ->
+  nth i (diff_line K order h per true u (repeat true (length u))) (f0 K)
+  = sapply K (row K order h per (length u) i) (fun j => nth j u (f0 K)).
+Proof. exact diff_line_row. Qed.
+Print Assumptions C05_fully_valid_line_is_stencil_row.
+
+(* the gradient's result carries the identity mapping, hence r = [0;1;2] *)
+Theorem C05_curl_grad_zero : forall (K : FOps), FLaws K ->
+  forall (M : cmesh K) f valid (q : idx) k,
+  cm_nd M = 3%nat -> (forall j, valid j = true) -> in_mesh K M q -> (k < 3)%nat ->
+  curl_v K M [0; 1; 2]%nat (grad_v K M f valid) valid (q ++ [k]) = f0 K.
+Proof. exact curl_grad_zero. Qed.
+Print Assumptions C05_curl_grad_zero.
+
+(* for every assignment r of the components of v to the axes *)
+Theorem C05_div_curl_zero : forall (K : FOps), FLaws K ->
+  forall (M : cmesh K) (r : list nat) v valid (q : idx) z,
+  cm_nd M = 3%nat -> (forall j, valid j = true) -> in_mesh K M q ->
+  div_v K M [0; 1; 2]%nat (curl_v K M r v valid) valid (q ++ [z]) = f0 K.
+Proof. exact div_curl_zero. Qed.
+Print Assumptions C05_div_curl_zero.
+
+Example C05_identities_nonvacuous :
+  cm_nd C05_demo_mesh = 3%nat /\ in_mesh QcOps C05_demo_mesh [2; 3; 0]%nat.
+Proof.
+  split; [reflexivity|]. split; [reflexivity|].
+  intros [|[|[|a]]] Ha; cbv in Ha |- *; lia.
+Qed.
+
+(* ===== refusals ===== *)
+Theorem C05_grad_refuses_non_scalar : forall (K : FOps) (M : cmesh K) dims vmap (f : idx -> K) valid nv vdims,
   nv <> 1%nat -> run_op K OGrad M dims nv vdims vmap f valid = Err ValueE.
 Proof. exact grad_refuses_vectors. Qed.
 Print Assumptions C05_grad_refuses_non_scalar.
+
+Theorem C05_div_refuses_nvdim_not_ndim : forall (K : FOps) (M : cmesh K) dims vmap (f : idx -> K) valid nv vdims,
+  nv <> cm_nd M -> run_op K ODiv M dims nv vdims vmap f valid = Err ValueE.
+Proof. exact div_refuses_misfit. Qed.
+Print Assumptions C05_div_refuses_nvdim_not_ndim.
+
+Theorem C05_curl_refuses_not_3x3 : forall (K : FOps) (M : cmesh K) dims vmap (f : idx -> K) valid nv vdims,
+  nv <> 3%nat \/ cm_nd M <> 3%nat -> run_op K OCurl M dims nv vdims vmap f valid = Err ValueE.
+Proof. exact curl_refuses_misfit. Qed.
+Print Assumptions C05_curl_refuses_not_3x3.
+
+(* a component label without a mapping entry, or mapped to a name that is not a dimension of the mesh *)
+Theorem C05_div_refuses_unmapped_component : forall (K : FOps) (M : cmesh K) dims vmap (f : idx -> K) valid nv vs v,
+  In v vs -> unmapped dims vmap v -> is_err (run_op K ODiv M dims nv (Some vs) vmap f valid).
+Proof. exact div_refuses_unmapped. Qed.
+Print Assumptions C05_div_refuses_unmapped_component.
+
+Theorem C05_curl_refuses_unmapped_component : forall (K : FOps) (M : cmesh K) dims vmap (f : idx -> K) valid nv vs v,
+  In v vs -> unmapped dims vmap v -> is_err (run_op K OCurl M dims nv (Some vs) vmap f valid).
+Proof. exact curl_refuses_unmapped. Qed.
+Print Assumptions C05_curl_refuses_unmapped_component.
+
+Theorem C05_curl_refuses_axis_without_component : forall (K : FOps) (M : cmesh K) dims vmap (f : idx -> K) valid nv vs d,
+  In d dims -> rlookup d vmap = None -> is_err (run_op K OCurl M dims nv (Some vs) vmap f valid).
+Proof. exact curl_refuses_uncovered_axis. Qed.
+Print Assumptions C05_curl_refuses_axis_without_component.
+
+Theorem C05_div_curl_refuse_unlabelled : forall (K : FOps) (M : cmesh K) dims vmap (f : idx -> K) valid op nv,
+  op = ODiv \/ op = OCurl -> is_err (run_op K op M dims nv None vmap f valid).
+Proof. exact div_curl_refuse_unlabelled. Qed.
+Print Assumptions C05_div_curl_refuse_unlabelled.
+
+Example C05_refusals_nonvacuous :
+  unmapped ["a"; "b"; "c"]%string [("p", "b"); ("q", "nope"); ("s", "a")]%string "q"%string /\
+  unmapped ["a"; "b"; "c"]%string [("p", "b"); ("s", "a")]%string "q"%string /\
+  rlookup "c"%string [("p", "b"); ("q", "b"); ("s", "a")]%string = None.
+Proof.
+  split; [right; exists "nope"%string; split; reflexivity|]. split; [left; reflexivity | reflexivity].
+Qed.
